@@ -1,12 +1,14 @@
-From KV Require Import Base.Prelude Base.Exn Base.Bytes Model.Data Model.Wire Model.KsrPolicy Model.Chain Model.Token Model.Sign Model.History
+From Coq Require Import String.
+From KV Require Import Base.Prelude Base.Exn Base.Bytes Model.Data Model.Wire Model.KsrPolicy Model.Chain Model.Token Model.Sign Model.History Model.SchemaTable
   Checks.C14Check Checks.SignCheck.
+From KV Require Gen.Schemas.
 
 (* one ceremony on the real tools: configuration, the previous SKR as the loader read it from the file the previous ceremony wrote,
    the clock, schema, KSR, token and oracle tables; impl = bundles of the SKR written, or the exception class *)
-Definition case : Type :=
+Definition ceremony_case : Type :=
   (ReqPolicy * Z * bool * Z * KskKeys * SigPolicy * option Response * Z * Schema * Request * list Module * oracles * bool * res (list Bundle))%type.
 
-Definition check (c : case) : Z :=
+Definition check_ceremony (c : ceremony_case) : Z :=
   let '(p, resp_num, validate, ttl, kks, ksk, prev, now, schema, ksr, ms, o, strict, impl) := c in
   let bs := or_blobs o in
   let cfg := mkConfig p resp_num validate ttl dot kks ksk in
@@ -15,4 +17,18 @@ Definition check (c : case) : Z :=
   | OK a, OK b => if bundles_same (rs_bundles a) b then 0 else 1
   | Raise x, Raise y => if strict then (if x =? y then 0 else 1) else 0
   | _, _ => 1
+  end.
+
+(* which example schema was accepted after which (honest KSR, chain in order): the identifier rules of SchemaTable decide *)
+Definition schema_named (n : string) : Schema :=
+  match find (fun e => String.eqb (fst e) n) Gen.Schemas.example_schemas with Some (_, s) => s | None => [] end.
+
+Inductive case :=
+| CCeremony (c : ceremony_case)
+| CFollows (prev next : string) (accepted : bool).
+
+Definition check (c : case) : Z :=
+  match c with
+  | CCeremony cc => check_ceremony cc
+  | CFollows a b acc => if Bool.eqb (follows 2 (schema_named a) (schema_named b)) acc then 0 else 1
   end.
